@@ -236,6 +236,20 @@ def assignmentsOfMap (s : Schema) (selects omits : List Col) (skipHooks : Bool)
     | none => none
   part1 ++ part2
 
+/-- struct branch, the test deciding whether field `f` (of the updating schema) is appended to SET:
+    `if !field.PrimaryKey || !updatingValue.CanAddr() || stmt.Dest != stmt.Model {`
+    `  if v, ok := selectColumns[field.DBName]; (ok && v) || (!ok && (!restricted || (!stmt.SkipHooks && field.AutoUpdateTime > 0))) {`
+    `    value, isZero := field.ValueOf(…); if !stmt.SkipHooks && field.AutoUpdateTime > 0 { value = NOW; isZero = false }`
+    `    if (ok || !isZero) && field.Updatable {` -/
+def structWrites (sel : Results × Bool) (destIsModel skipHooks : Bool) (nz : List Col) (f : FieldSpec) : Bool :=
+  let tracked := !skipHooks && f.autoUpdateTime
+  let look := sel.1.lookup f.dbName
+  let guard := match look with
+    | some v => v
+    | none => !sel.2 || tracked
+  let isZero := if tracked then false else !nz.contains f.name
+  (!f.primaryKey || !destIsModel) && (guard && (look.isSome || !isZero) && f.updatable)
+
 /-- struct branch.  `s` = statement schema, `upd` = schema of the updating value (`= s` unless `Dest` is
     another struct type); `destIsModel` = `updatingValue.CanAddr() && stmt.Dest == stmt.Model`;
     `nz` = Go names of the non-zero fields of the updating value; `modelNz` = of the model value.
@@ -246,16 +260,7 @@ def assignmentsOfStruct (s upd : Schema) (selects omits : List Col) (destIsModel
   let set := s.dbNames.filterMap fun db =>
     match upd.lookUpField db with
     | none => none
-    | some f =>
-      if !f.primaryKey || !destIsModel then
-        let tracked := !skipHooks && f.autoUpdateTime
-        let look := sel.1.lookup f.dbName
-        let guard := match look with
-          | some v => v
-          | none => !sel.2 || tracked
-        let isZero := if tracked then false else !nz.contains f.name
-        if guard && (look.isSome || !isZero) && f.updatable then some f.dbName else none
-      else none
+    | some f => if structWrites sel destIsModel skipHooks nz f then some f.dbName else none
   let conds :=
     if destIsModel then
       s.dbNames.filterMap fun db =>
@@ -267,28 +272,35 @@ def assignmentsOfStruct (s upd : Schema) (selects omits : List Col) (destIsModel
 
 /-! ## callbacks/create.go, callbacks/helper.go -/
 
+/-- first loop of `ConvertToCreateValues`: `if field := …; !field.HasDefaultValue || field.DefaultValueInterface != nil {`
+    `if v, ok := selectColumns[db]; (ok && v) || (!ok && (!restricted || field.AutoCreateTime > 0 || field.AutoUpdateTime > 0))` -/
+def createWrites (sel : Results × Bool) (f : FieldSpec) : Bool :=
+  (!f.hasDefault || f.defaultIface) &&
+    (match sel.1.lookup f.dbName with
+     | some v => v
+     | none => !sel.2 || f.autoCreateTime || f.autoUpdateTime)
+
+/-- loop over `FieldsWithDefaultDBValue`: struct: `(ok && v) || (!ok && !restricted) && field.DefaultValueInterface == nil`;
+    slice: `(ok && v) || (!ok && !restricted)`; the column is added when some element has a non-zero value -/
+def createWritesDefault (sel : Results × Bool) (isSlice : Bool) (rows : List (List Col)) (f : FieldSpec) : Bool :=
+  (if isSlice then allowed sel f.dbName
+   else (match sel.1.lookup f.dbName with
+         | some v => v
+         | none => !sel.2 && !f.defaultIface)) &&
+  rows.any (fun nz => nz.contains f.name)
+
 /-- `ConvertToCreateValues`, default branch: INSERT column list.  `rows` = per element the Go names of
     its non-zero fields (`isSlice = false` ⇒ exactly one row = the struct). -/
 def createColumns (s : Schema) (selects omits : List Col) (isSlice : Bool) (rows : List (List Col)) : List Col :=
   let sel := selectAndOmit s selects omits true false
-  let cols1 := s.dbNames.filter fun db =>
+  let cols1 := s.dbNames.filterMap fun db =>
     match s.byDBName db with
-    | none => false
-    | some f =>
-      (!f.hasDefault || f.defaultIface) &&
-        (match sel.1.lookup db with
-         | some v => v
-         | none => !sel.2 || f.autoCreateTime || f.autoUpdateTime)
+    | none => none
+    | some f => if createWrites sel f then some db else none
   let cols2 := s.defaultDB.filterMap fun db =>
     match s.byDBName db with
     | none => none
-    | some f =>
-      let okSel :=
-        if isSlice then allowed sel f.dbName
-        else (match sel.1.lookup f.dbName with
-              | some v => v
-              | none => !sel.2 && !f.defaultIface)
-      if okSel && rows.any (fun nz => nz.contains f.name) then some f.dbName else none
+    | some f => if createWritesDefault sel isSlice rows f then some f.dbName else none
   cols1 ++ cols2
 
 /-- `ConvertMapToValuesForCreate`: `keys` in `sort.Strings` order -/
@@ -307,13 +319,14 @@ def createColumnsMaps (s : Schema) (selects omits : List Col) (rows : List (List
 
 /-- `OnConflict.UpdateAll` expansion over the INSERT columns `cols`: DO UPDATE SET column list
     (tracked update-time columns first, as the code appends them before `AssignmentColumns(columns)`) -/
+def upsertKeeps (sel : Results × Bool) (f : FieldSpec) : Bool :=
+  allowed sel f.dbName && !f.primaryKey && (!f.hasDefault || f.defaultIface || f.defaultNull) && !f.autoCreateTime
+
 def upsertAssignments (s : Schema) (selects omits : List Col) (cols : List Col) : List Col :=
   let sel := selectAndOmit s selects omits true true
   let fs := cols.filterMap fun c =>
     match s.lookUpField c with
-    | some f =>
-      if allowed sel f.dbName && !f.primaryKey && (!f.hasDefault || f.defaultIface || f.defaultNull)
-          && !f.autoCreateTime then some (c, f) else none
+    | some f => if upsertKeeps sel f then some (c, f) else none
     | none => none
   (fs.filterMap fun cf => if cf.2.autoUpdateTime then some cf.2.dbName else none) ++
   (fs.filterMap fun cf => if cf.2.autoUpdateTime then none else some cf.1)
